@@ -467,6 +467,8 @@ def public_callables(ctx):
             v = getattr(ctx, name)
         except Exception:
             continue
-        if callable(v) and not isinstance(v, type):
+        # only functions / bound methods: callable *constants* (pi, e, eps, ...) are numbers that happen to have
+        # __call__; wrapping them would replace a number by a function and break arithmetic inside the library
+        if callable(v) and not isinstance(v, type) and isinstance(v, (types.FunctionType, types.MethodType, types.BuiltinFunctionType)):
             out.append(name)
     return out
